@@ -44,6 +44,8 @@ type feat struct {
 	members []b6.FeatureID
 	e7      bool // survives the E7 rounding of the compact encoding without collapsing
 	global  bool // not anchored (large feature)
+	tags    b6.Tags // further search tags (filter worlds: #t=a, #e=y)
+	inBase  bool    // filter worlds: given to the base of the overlay world
 }
 
 func loopOf(pts []s2.Point) *s2.Loop {
@@ -77,12 +79,12 @@ func (f *feat) ingest() ingest.Feature {
 	case fPoint:
 		g := &ingest.GenericFeature{ID: f.id}
 		if f.tagged {
-			g.Tags = b6.Tags{tag}
+			g.Tags = append(b6.Tags{tag}, f.tags...)
 		}
 		g.AddTag(b6.Tag{Key: b6.PointTag, Value: b6.NewPointExpressionFromLatLng(f.ll)})
 		return g
 	case fPath:
-		g := &ingest.GenericFeature{ID: f.id, Tags: b6.Tags{tag}}
+		g := &ingest.GenericFeature{ID: f.id, Tags: append(b6.Tags{tag}, f.tags...)}
 		var es []b6.AnyExpression
 		for _, r := range f.refs {
 			es = append(es, b6.FeatureIDExpression(r))
@@ -99,7 +101,7 @@ func (f *feat) ingest() ingest.Feature {
 		}
 		a := ingest.NewAreaFeature(n)
 		a.AreaID = f.id.ToAreaID()
-		a.Tags = b6.Tags{tag}
+		a.Tags = append(b6.Tags{tag}, f.tags...)
 		if f.pathIDs != nil {
 			a.SetPathIDs(0, append([]b6.FeatureID{}, f.pathIDs...))
 		} else {
@@ -111,13 +113,13 @@ func (f *feat) ingest() ingest.Feature {
 	case fRelation:
 		r := ingest.NewRelationFeature(len(f.members))
 		r.RelationID = f.id.ToRelationID()
-		r.Tags = b6.Tags{tag}
+		r.Tags = append(b6.Tags{tag}, f.tags...)
 		for i, m := range f.members {
 			r.Members[i] = b6.RelationMember{ID: m, Role: "m"}
 		}
 		return r
 	case fCollection:
-		c := &ingest.CollectionFeature{CollectionID: f.id.ToCollectionID(), Tags: b6.Tags{tag}}
+		c := &ingest.CollectionFeature{CollectionID: f.id.ToCollectionID(), Tags: append(b6.Tags{tag}, f.tags...)}
 		for i, m := range f.members {
 			c.Keys = append(c.Keys, m)
 			c.Values = append(c.Values, i)
